@@ -24,8 +24,10 @@
   width table (`FieldKnown`, `matchField_accept`, `fieldKnown_mk`, `fieldKnown_mkMasked`), any match of such fields through
   `Spec.walkMatch` (`match_accept`), the flow-mod with such a match (`flowMod_topWalk_known`), set-field of a known
   field (`actionSetField_accept`, also in `ActionKnown`).  Walker-side lemmas: OFV/Lemmas/Walk2..Walk5.lean.
-  Not done (time): reg-load2, packet-out through the top-level `Spec.walk`, learn / dec-ttl-cnt-ids / nat / conntrack
-  actions, the BundleAdd frame, learn specs, tun_metadata fields (variable length).
+  reg_load2 of a known field (`nxRegLoad2_accept`, in `ActionKnown`), packet-out through the TOP-LEVEL `Spec.walk` for any
+  payload with a repeatable Len() (`packetOut_topWalk`).
+  Not done (time): nat / conntrack / learn / dec-ttl-cnt-ids actions, the BundleAdd frame, learn specs, tun_metadata
+  fields (variable length).
   No encoding produced by the model was found that the walker rejects.
 -/
 import OFV.Props.C02b
@@ -952,8 +954,10 @@ theorem packetOut_specWalk (cl : MsgLenF) (cm : MsgMarF) (hh : V) (b ip al0 : Na
       bs.take (24 + abs.flatten.length) =
         hb ++ be32 (n32 b) ++ be32 (n32 ip) ++ be16 (n16 abs.flatten.length) ++ zeros 6 ++ abs.flatten ∧
       u16At (bs.drop 8) 8 = abs.flatten.length ∧ zerosAt (bs.drop 8) 10 6 "packet-out" = .ok () ∧
-      ∀ fuel, as.length + 1 < fuel →
-        walkActions fuel (slice (bs.drop 8) 16 (u16At (bs.drop 8) 8)) = .ok (abs.map actTree) := by
+      (∀ fuel, as.length + 1 < fuel →
+        walkActions fuel (slice (bs.drop 8) 16 (u16At (bs.drop 8) 8)) = .ok (abs.map actTree)) ∧
+      ∃ l0 l1 : UInt16, bs.length = l0.toNat ∧ Header.bytes (Header.setLength l1 hh) = .ok hb ∧
+        ((∀ l v1, cl d = .ok (l, v1) → cl v1 = .ok (l, v1)) → l1 = l0) ∧ as.length ≤ abs.flatten.length := by
   unfold PacketOut.marshalWith at h
   obtain ⟨⟨l0, va⟩, hl0, g1⟩ := bind_ok_inv _ _ _ h
   obtain ⟨ls, as1, ld, d1, hm1, hd1, rfl, rfl⟩ := OFV.Rep.PacketOut.lenWith_inv cl _ _ _ _ _ _ _ _ _ hl0
@@ -986,6 +990,7 @@ theorem packetOut_specWalk (cl : MsgLenF) (cm : MsgMarF) (hh : V) (b ip al0 : Na
     have h16 : (16 : UInt16).toNat = 16 := rfl
     rw [UInt16.toNat_add, UInt16.toNat_add, UInt16.toNat_add, hs, h8, h16, hp]; omega
   have hlen := fill_length _ _ _ hout
+  have hlen0 : bs.length = (8 + 16 + sum16 ls + ld : UInt16).toNat := hlen
   rw [eL] at hlen hout
   have htf : ∀ q ∈ [pCopy hb, pU32 b, pU32 ip, pU16 (sum16 ls).toNat, pSkip 6], q.Tight := by
     intro q hq; simp only [List.mem_cons, List.mem_nil_iff, or_false] at hq
@@ -1041,13 +1046,66 @@ theorem packetOut_specWalk (cl : MsgLenF) (cm : MsgMarF) (hh : V) (b ip al0 : Na
       have : (p ++ q ++ z).length = 16 := by simp [hp', hq, hz']
       rw [← List.append_assoc, ← List.append_assoc, ← this, List.drop_left, List.take_left]
     exact this _ _ _ _ (by simp) (by simp) (by simp [zeros])
-  refine ⟨abs, hb, hbl, hcnt, by rw [hF]; omega, by rw [hF]; exact hpre, by rw [hF]; exact hal, hz, fun fuel hfu => ?_⟩
-  rw [hal, hsl, ← hF]
-  refine walkActions_flatten abs (fun bx hbx => ?_) fuel (by omega)
-  obtain ⟨x, hx, y, hxy⟩ := mapM2_mem_bytes _ _ _ _ hmm bx hbx
-  have hw := hk ls as1 hm1 x hx
-  have hdcl := action_declares x hw.1 bx y hxy
-  exact ⟨action_accept x hw.2 bx y hxy, by have := hdcl.2.1; omega⟩
+  have hacc : ∀ bx ∈ abs, Accepted bx ∧ 0 < bx.length := by
+    intro bx hbx
+    obtain ⟨x, hx, y, hxy⟩ := mapM2_mem_bytes _ _ _ _ hmm bx hbx
+    have hw := hk ls as1 hm1 x hx
+    have hdcl := action_declares x hw.1 bx y hxy
+    exact ⟨action_accept x hw.2 bx y hxy, by have := hdcl.2.1; omega⟩
+  have hcl := count_le_flatten abs (fun bx hbx => (hacc bx hbx).2)
+  refine ⟨abs, hb, hbl, hcnt, by rw [hF]; omega, by rw [hF]; exact hpre, by rw [hF]; exact hal, hz, fun fuel hfu => ?_,
+    8 + 16 + sum16 ls + ld, 8 + 16 + sum16 ls + ld', hlen0, hhb, fun hid => ?_, by rw [hF, ← hcnt]; rw [hF] at hcl; exact hcl⟩
+  · rw [hal, hsl, ← hF]
+    exact walkActions_flatten abs hacc fuel (by omega)
+  · have := hid ld d1 hd1
+    rw [this] at hd2; cases hd2; rfl
+
+/-- WALK of a whole PacketOut by the TOP-LEVEL specification walker: version 4, type OFPT_PACKET_OUT, any transaction
+    id / stored length / buffer id / in-port / stored actions_len, ANY list of known actions as in `packetOut_specWalk`,
+    any payload whose Len() is repeatable (`hid`; true of every payload kind of the library), total below 64 KiB:
+    `Spec.walk` accepts the encoding — the header declares exactly the bytes present, the actions_len word covers exactly
+    the actions, the pad bytes are zero — and its tree is the message node with exactly one child per action -/
+theorem packetOut_topWalk (cl : MsgLenF) (cm : MsgMarF) (ln : V) (xid b ip al0 : Nat) (pad : V) (as : List V) (d : V)
+    (bs : Bytes) (v2 : V)
+    (hk : ∀ ls as1, mapM2 Action.lenM as = .ok (ls, as1) → ∀ a ∈ as1, ActionWF a ∧ ActionKnown a)
+    (hfit : ∀ ls as1 ld d1, mapM2 Action.lenM as = .ok (ls, as1) → cl d = .ok (ld, d1) →
+      24 + (ls.map UInt16.toNat).sum + ld.toNat < 65536)
+    (hid : ∀ l v1, cl d = .ok (l, v1) → cl v1 = .ok (l, v1))
+    (h : PacketOut.marshalWith cl cm (.obj "PacketOut" [.obj "Header" [.num 4, .num 13, ln, .num xid], .num b, .num ip,
+      .num al0, pad, .list as, d]) = .ok (bs, v2)) :
+    ∃ abs : List Bytes, abs.length = as.length ∧ Spec.walk bs = .ok (.node "msg 13" bs (abs.map actTree)) := by
+  obtain ⟨abs, hb, hbl, hcnt, hle, htake, hal, hz, hw, l0, l1, hl0, hhb, hidem, hcl⟩ :=
+    packetOut_specWalk cl cm _ b ip al0 pad as d bs v2 hk hfit h
+  have e10 := hidem hid
+  subst e10
+  refine ⟨abs, hcnt, ?_⟩
+  simp only [Header.setLength, Header.bytes, V.u16] at hhb
+  have ehb : hb = [n8 4, n8 13] ++ be16 (n16 l1.toNat) ++ be32 (n32 xid) := (Res.ok.inj hhb).symm
+  have ht8 : bs.take 8 = hb := by
+    have : (bs.take (24 + abs.flatten.length)).take 8 = bs.take 8 := by
+      rw [List.take_take]; congr 1; omega
+    rw [← this, htake]
+    simp only [List.append_assoc]
+    rw [← hbl, List.take_left]
+  have hB' : bs = [n8 4, n8 13] ++ (be16 (n16 l1.toNat) ++ (be32 (n32 xid) ++ bs.drop 8)) := by
+    conv => lhs; rw [← List.take_append_drop 8 bs, ht8, ehb]
+    simp only [List.append_assoc]
+  have hv : u8At bs 0 = 4 := by rw [hB']; rfl
+  have ht : u8At bs 1 = 13 := by rw [hB']; rfl
+  have hln : u16At bs 2 = bs.length := by
+    rw [u16At_eq_beAt bs 2 (by omega)]
+    have hr := beAt_append_right [n8 4, n8 13] (be16 (n16 l1.toNat) ++ (be32 (n32 xid) ++ bs.drop 8)) 0 2
+    rw [← hB'] at hr
+    have hr' : beAt bs 2 2 = beAt (be16 (n16 l1.toNat) ++ (be32 (n32 xid) ++ bs.drop 8)) 0 2 := hr
+    rw [hr', beAt_be16, n16_of_toNat, hl0]
+  have hnl : ¬ bs.length < 8 := by omega
+  have hbl16 : ¬ (bs.drop 8).length < 16 := by simp; omega
+  have hbl2 : ¬ (bs.drop 8).length < 16 + u16At (bs.drop 8) 8 := by
+    rw [hal]; simp only [List.length_drop]; omega
+  unfold Spec.walk
+  simp only [walkMsg, hnl, hv, ht, hln, hbl16, hz, hbl2, if_false, ne_eq, not_true_eq_false]
+  rw [hw (bs.length + 1) (by omega)]
+  rfl
 
 /-- a packet-out as NewPacketOut() + AddAction(output 7) + AddAction(group 3) + a 3-byte payload builds it -/
 def exPacketOut : V := .obj "PacketOut" [.obj "Header" [.num 4, .num 13, .num 8, .num 7], .num 4294967295,
@@ -1062,7 +1120,7 @@ example : (PacketOut.marshalM exPacketOut).isOk = true ∧
   refine ⟨rfl, fun bs v2 h => ?_⟩
   have hm : mapM2 Action.lenM [ActionOutput.new 7, ActionGroup.new 3] = .ok ([16, 8], [ActionOutput.new 7, ActionGroup.new 3]) := rfl
   have hd : anyLenM (.obj "u.Buffer" [.bytes [1, 2, 3]]) = .ok (3, .obj "u.Buffer" [.bytes [1, 2, 3]]) := rfl
-  obtain ⟨abs, hb, _, hc, _, _, _, _, hw⟩ := packetOut_specWalk anyLenM anyMarshalM _ _ _ _ _ _ _ bs v2 (by
+  obtain ⟨abs, hb, _, hc, _, _, _, _, hw, _⟩ := packetOut_specWalk anyLenM anyMarshalM _ _ _ _ _ _ _ bs v2 (by
       intro ls as1 hm' a ha
       rw [hm] at hm'; cases hm'
       simp only [List.mem_cons, List.mem_nil_iff, or_false] at ha
@@ -1074,6 +1132,28 @@ example : (PacketOut.marshalM exPacketOut).isOk = true ∧
         rw [hd] at hd'; cases hd'
         decide) h
   exact ⟨_, hw 4 (by decide), by rw [List.length_map, hc]; rfl⟩
+
+/-- `packetOut_topWalk` applies to the same packet-out (version 4, type 13 as NewPacketOut stores, two actions added,
+    a 3-byte payload set): the top-level walker accepts the encoding -/
+example : ∀ bs v2, PacketOut.marshalM exPacketOut = .ok (bs, v2) → ∃ t, Spec.walk bs = .ok t := by
+  intro bs v2 h
+  have hm : mapM2 Action.lenM [ActionOutput.new 7, ActionGroup.new 3] = .ok ([16, 8], [ActionOutput.new 7, ActionGroup.new 3]) := rfl
+  have hd : anyLenM (.obj "u.Buffer" [.bytes [1, 2, 3]]) = .ok (3, .obj "u.Buffer" [.bytes [1, 2, 3]]) := rfl
+  obtain ⟨abs, _, hw⟩ := packetOut_topWalk anyLenM anyMarshalM (.num 8) 7 4294967295 Gen.openflow13.P_ANY 24 (.bytes (zeros 6))
+    [ActionOutput.new 7, ActionGroup.new 3] (.obj "u.Buffer" [.bytes [1, 2, 3]]) bs v2 (by
+      intro ls as1 hm' a ha
+      rw [hm] at hm'; cases hm'
+      simp only [List.mem_cons, List.mem_nil_iff, or_false] at ha
+      rcases ha with rfl | rfl
+      · exact ⟨actionWF_output 7, known_output 7⟩
+      · exact ⟨actionWF_group 3, known_group 3⟩)
+    (by intro ls as1 ld d1 hm' hd'
+        rw [hm] at hm'; cases hm'
+        rw [hd] at hd'; cases hd'
+        decide)
+    (by intro l v1 hl
+        rw [hd] at hl; cases hl; exact hd) h
+  exact ⟨_, hw⟩
 
 /-! ### instructions and the flow-mod through the real walker -/
 
